@@ -38,7 +38,7 @@ pub fn opaque() -> J {
 }
 
 /// The model's `Num` record for an f64: exact dyadic in the small domain,
-/// negative zero, or opaque.
+/// negative zero, NaN, an infinity, or opaque.
 pub fn num(x: f64) -> J {
     if x == 0.0 {
         return if x.is_sign_negative() {
@@ -47,8 +47,11 @@ pub fn num(x: f64) -> J {
             json!({"t": "n", "n": 0, "d": 0})
         };
     }
-    if !x.is_finite() {
-        return opaque();
+    if x.is_nan() {
+        return json!({"t": "nan", "n": 0, "d": 0});
+    }
+    if x.is_infinite() {
+        return json!({"t": if x > 0.0 { "pinf" } else { "ninf" }, "n": 0, "d": 0});
     }
     let bits = x.to_bits();
     let sign: i64 = if (bits >> 63) != 0 { -1 } else { 1 };
